@@ -445,6 +445,9 @@ func runOne(c *ctx, rc rCase, m *metrics.Metrics) rTrace {
 	fn := func(t *f1testing.T) f1testing.RunFn {
 		t.Cleanup(func() { rec.add(rEv{K: "setupcleanup", A: live.Load(), C: rec.us()}) })
 		if rc.cfg.SetupFail {
+			if rc.cfg.SetupUs > 0 {
+				time.Sleep(time.Duration(rc.cfg.SetupUs) * time.Microsecond) // a setup that fails after a while
+			}
 			rec.add(rEv{K: "setup", A: 0, C: rec.us()})
 			failWith(t, rc.cfg.SetupMode)
 			return func(*f1testing.T) { rec.add(rEv{K: "start", A: -1, B: -1, C: rec.us()}) } // must never run
@@ -1105,6 +1108,10 @@ func buildCases(c *ctx) []rCase {
 		rs.cfg.SetupFail = true
 		rs.cfg.SetupMode = strings.TrimPrefix(rs.cfg.Name, "setup-fail-")
 		add(viaCLI(rs, "constant", "-r", "5/10ms", "--distribution", "none"))
+		// Ctrl-C while a setup is running that then fails: still a failed run
+		rsi := constantCase("interrupt-during-failing-setup", "5/10ms", 10*ms, 2, 0, 2000*ms, "none")
+		rsi.cfg.SetupFail, rsi.cfg.SetupMode, rsi.cfg.SetupUs, rsi.cfg.CancelUs = true, []string{"fail", "failnow", "panic-error"}[c.rng.Intn(3)], 70*ms, 20*ms
+		add(viaCLI(rsi, "constant", "-r", "5/10ms", "--distribution", "none"))
 		rdrop := constantCase("drops", "5/20ms", 20*ms, 1, 0, 300*ms, "none")
 		rdrop.bodyMaxUs = 30000
 		add(viaCLI(rdrop, "constant", "-r", "5/20ms", "--distribution", "none"))
@@ -1195,6 +1202,10 @@ func buildCases(c *ctx) []rCase {
 			rs.cfg.SetupMode = mode
 			add(rs)
 		}
+		// cancelled while a setup is running that then fails: still a failed run
+		rsc := constantCase("cancel-during-failing-setup", "5/10ms", 10*ms, 2, 0, 2000*ms, "none")
+		rsc.cfg.SetupFail, rsc.cfg.SetupMode, rsc.cfg.SetupUs, rsc.cfg.CancelUs = true, []string{"fail", "failnow", "panic-string", "require"}[c.rng.Intn(4)], 60*ms, 20*ms
+		add(rsc)
 		rb := constantCase("completion-timeout", "4/10ms", 10*ms, 4, 0, 150*ms, "none")
 		rb.cfg.Blockers = 2
 		rb.cfg.WaitUs = 200 * ms
